@@ -340,14 +340,28 @@ def equality_pool(r):
         "Scalar(0.0)": Scalar(0.0, u1), "Scalar(-0.0)": Scalar(-0.0, u1), "Scalar(-5 * 0)": Scalar(-5.0, u1) * 0, "Scalar(int 0)": Scalar(0, u1),
         "Scalar(empty, -0.0)": Scalar.CreateEmptyScalar(-0.0), "Scalar(empty, 0.0)": Scalar.CreateEmptyScalar(0.0), "Scalar(derived, -0.0)": (m * s) * -0.0, "Scalar(derived, 0.0)": (m * s) * 0.0,
         # fractional values whose parts are beyond the float range are values like any other for == and !=
-        "FractionValue(huge int)": FractionValue(10**400), "FractionValue(huge int, same)": FractionValue(10**400), "FractionValue(huge numerator)": FractionValue(1, (10**400, 3)),
-        "FractionValue(huge negative)": FractionValue(-(10**400), (1, 2)),
+        "FractionValue(huge int)": _built(lambda: FractionValue(10**400)), "FractionValue(huge int, same)": _built(lambda: FractionValue(10**400)), "FractionValue(huge numerator)": _built(lambda: FractionValue(1, (10**400, 3))),
+        "FractionValue(huge negative)": _built(lambda: FractionValue(-(10**400), (1, 2))),
         "None": None, "str": "x", "int": 1, "float": 0.5, "tuple": (1, 2), "list": [1.0, 2.0], "dict": {"a": 1}, "object": object(), "bool": True, "int0": 0, "float1.5": 1.5,
     }  # fmt: skip
     return objs
 
 
 FOREIGN = {"pair (1.0, 'm')", "pair (1, 0)", "list pair [1, 0]", "pair (inf, 2)", "pair (None, None)", "pair ('a', 'b')", "pair (nan, 1)", "pair (1, 2.5)", "None", "str", "int", "float", "tuple", "list", "dict", "object", "bool", "int0", "float1.5", "fractions.Fraction", "Decimal", "rational look-alike", "np.int64", "np.float64", "complex", "bytes", "frozenset", "range", "type", "huge int", "huge negative int", "inf", "nan", "2**1024"}
+
+
+class _NotBuilt:
+    """stands in the pool for a member whose constructor raised (reported by the sweep; the other members are still compared)"""
+
+    def __init__(self, e):
+        self.error = "%s: %s" % (type(e).__name__, str(e)[:120])
+
+
+def _built(fn):
+    try:
+        return fn()
+    except Exception as e:
+        return _NotBuilt(e)
 
 
 class _Rational:
@@ -367,6 +381,9 @@ def equality_sweep(ctx, r):
     import numpy as np
 
     objs = equality_pool(r)
+    for n_ in [k for k, o in objs.items() if isinstance(o, _NotBuilt)]:
+        ctx.ev()
+        ctx.violation("eq-pool-member-could-not-be-built:%s" % n_, {"member": n_, "error": objs.pop(n_).error})
     names = list(objs)
     hashable = {}
     for n in names:
